@@ -227,6 +227,7 @@ func verifValues(thorough bool) (leaf []interface{}, mid []interface{}) {
 // TestVerifBounded_C03_RoundTrip: labelled bounded. Families:
 //  A: all ordered pairs of depth-1 values (scalars, objects over {a,b,__key}, arrays <= 3 of leaves/keyed objects) [quick: a seeded half]
 //  B: depth-2 objects {f: x} -> {f: y} and {f: x} -> {g: y}, {} for all depth-1 x, y from a representative subset
+//  D: aliased arguments: new = old[:k] / append(old, x) sharing the backing array, top level and nested
 //  C: reorder family: old = first n of [k1..k4], new = every sequence of length <= 4 over {k1..k5} (keyed objects and plain scalars)
 func TestVerifBounded_C03_RoundTrip(t *testing.T) {
 	thorough := os.Getenv("VERIF_TIER") == "thorough"
@@ -235,13 +236,18 @@ func TestVerifBounded_C03_RoundTrip(t *testing.T) {
 	seen := map[string]bool{}
 	classes := map[string]int{}
 	firstFail := ""
+	aliased := false
 	check := func(old, new interface{}) {
 		evals++
 		key := verifJSON(old) + "|" + verifJSON(new)
 		if !seen[key] && key != verifJSON(new)+"|"+verifJSON(old) {
 			seen[key] = true
 		}
-		if bad, detail := verifRoundTripCheck(verifDeepCopy(old), verifDeepCopy(new)); bad {
+		o2, n2 := verifDeepCopy(old), verifDeepCopy(new)
+		if aliased {
+			o2, n2 = old, new // keep the sharing between the two arguments
+		}
+		if bad, detail := verifRoundTripCheck(o2, n2); bad {
 			failures++
 			classes[verifClass(old, new)]++
 			if firstFail == "" {
@@ -319,6 +325,27 @@ func TestVerifBounded_C03_RoundTrip(t *testing.T) {
 				}
 			}
 			rec([]interface{}{})
+		}
+	}
+	// D: aliased arguments - new shares its backing array with old (new = old[:k], new = append(old[:k], x) within capacity),
+	// at top level and inside distinct parent objects
+	aliased = true
+	for n := 1; n <= 3; n++ {
+		for k := 0; k <= n; k++ {
+			backing := make([]interface{}, n, n+2)
+			for i := range backing {
+				backing[i] = i + 1
+			}
+			old := backing[:n]
+			check(old, old[:k])
+			check(map[string]interface{}{"l": old}, map[string]interface{}{"l": old[:k]})
+			if k < n {
+				grown := append(old[:k:k], 9) // fresh backing: control
+				check(old, grown)
+			}
+			ext := append(old, 7) // shares the backing array, longer
+			check(old, ext)
+			check(map[string]interface{}{"l": old, "__key": 1}, map[string]interface{}{"l": ext, "__key": 1})
 		}
 	}
 	if firstFail != "" {
